@@ -356,6 +356,25 @@ func report(w *World, units []*unitRun, prop, tier, verif string, t0 time.Time, 
 			if r.Ob.Kind == "post" {
 				postSeen[strings.SplitN(r.Ob.Name, "@", 2)[0]] = true
 			}
+			if r.Ob.Kind == "cover" {
+				// a cover query that is unsat means the point is dead: fine if the contract declares it
+				// `unreachable` (then the unsat answer is the proof), a vacuity alarm otherwise; a declared
+				// unreachable point that turns out reachable is an error of the contract as well
+				declared := contains(u.Fc.Unreachable, strings.TrimPrefix(r.Ob.Name, "cover:"))
+				switch {
+				case r.Status == "vacuous" && declared:
+					r.Status = "proved"
+				case r.Status == "vacuous":
+					fmt.Fprintf(os.Stderr, "govc: VACUITY %s/%s: the assumptions on the way to this point are contradictory (or the point is dead: declare it `unreachable`)\n", u.Unit, r.Ob.Name)
+					machineryErr = true
+				case declared && r.Status == "sat-ok" && r.Backend != "":
+					// reachable or undecided although declared dead: only a definite `sat` is an error
+					if strings.Contains(r.Output, "sat") && !strings.Contains(r.Output, "unsat") && !strings.Contains(r.Output, "unknown") {
+						fmt.Fprintf(os.Stderr, "govc: ERROR %s/%s declared unreachable but it is reachable\n", u.Unit, r.Ob.Name)
+						machineryErr = true
+					}
+				}
+			}
 			switch r.Status {
 			case "proved", "sat-ok":
 				discharged++
